@@ -410,7 +410,7 @@ def run_query(model, o, q):
             for i, el in enumerate(exp["v"]):
                 r = check_elem(x[i], el, model)
                 if r:
-                    return f"element {i} (d=10^{q['ks'][i]}): {r}"
+                    return f"element {i} (d={dist(q['ks'][i])!r}): {r}"
         if not first_time(model, graph.key(q["pre"]), q["ks"], q["ws"]):
             return None
         lists = model not in ("metis", "hata")  # METIS asserts ndarray with wall arrays; Okumura-Hata compares d < 1.0
@@ -998,7 +998,7 @@ def run(ctx):
         for e in runs[m].emitted:
             a = e["op"] if e["kind"] == "set" else "Q" + e["op"]
             ctx.actions[a] = ctx.actions.get(a, 0) + 1
-        plan[m] = explore(ctx, m, runs[m], depth, 2000 if th else 100, 10 if th else 8, 20000 if th else 3000)
+        plan[m] = explore(ctx, m, runs[m], depth, 2000 if th else 100, 10 if th else 8, 20000 if th else 2000)
     ctx.require_actions(["Construct", "Plot", "SetPol", "SetShadow", "SetSigma", "SetN", "SetFc", "SetHbs", "SetHms", "SetArea", "QPLdB", "QPL", "QPLdBArr",
                          "QWhichDistDB", "QWhichDist", "QFriis", "QRel"])
     n = 0
